@@ -6,9 +6,9 @@ package main
 
 import (
 	"context"
+	"crypto/ed25519"
 	"fmt"
 	"net"
-	"strings"
 	"sync"
 	"time"
 
@@ -19,6 +19,7 @@ import (
 	"go.sia.tech/coreutils/chain"
 	rhp4 "go.sia.tech/coreutils/rhp/v4"
 	"go.sia.tech/coreutils/rhp/v4/siamux"
+	"go.sia.tech/mux"
 	"go.sia.tech/coreutils/testutil"
 	"go.sia.tech/coreutils/wallet"
 	"go.uber.org/zap"
@@ -46,6 +47,9 @@ type recContractor struct {
 	mu    sync.Mutex
 	calls []call
 	held  int // contract locks currently held by handlers
+	// chain height at the moment a contract was last locked (set by the world)
+	tipOf   func() uint64
+	lockTip map[types.FileContractID]uint64
 }
 
 func (rc *recContractor) record(c call) {
@@ -73,6 +77,9 @@ func (rc *recContractor) LockV2Contract(id types.FileContractID) (rhp4.RevisionS
 	}
 	rc.mu.Lock()
 	rc.held++
+	if rc.tipOf != nil {
+		rc.lockTip[id] = rc.tipOf()
+	}
 	rc.mu.Unlock()
 	var once sync.Once
 	return rs, func() {
@@ -158,12 +165,11 @@ func (rs *recSectors) nwrites() int {
 
 // ---- server log tap ---------------------------------------------------------
 
-// A logEntry is the line handleHostStream writes when a handler is done.
-type logEntry struct {
-	Msg string
-	Err string
-}
-
+// The server log is tapped for DIAGNOSIS ONLY (the detail shown next to a step in a
+// replay).  No decision of the harness depends on a log or error message of the
+// code under test: a handler is done when the server closes its end of the stream,
+// and an outcome is "persisted" / "served" / "refused" by the Contractor calls made
+// and by whether the renter was answered with an error.
 type tapCore struct {
 	w      *world
 	fields []zapcore.Field
@@ -178,25 +184,52 @@ func (t *tapCore) Check(e zapcore.Entry, ce *zapcore.CheckedEntry) *zapcore.Chec
 }
 func (t *tapCore) Sync() error { return nil }
 func (t *tapCore) Write(e zapcore.Entry, fields []zapcore.Field) error {
-	switch e.Message {
-	case "RPC success", "RPC failed", "panic in RPC handler", "failed to read RPC ID", "unrecognized RPC":
-	default:
-		return nil
-	}
-	le := logEntry{Msg: e.Message}
 	for _, f := range fields {
-		if f.Key == "error" {
+		if f.Key == "error" || f.Key == "panic" {
+			txt := e.Message
 			if err, ok := f.Interface.(error); ok && err != nil {
-				le.Err = err.Error()
+				txt += ": " + err.Error()
+			} else if f.Interface != nil {
+				txt += ": " + fmt.Sprint(f.Interface)
 			}
-		} else if f.Key == "panic" {
-			le.Err = fmt.Sprint(f.Interface)
+			t.w.logMu.Lock()
+			t.w.lastLog = txt
+			t.w.logMu.Unlock()
 		}
 	}
-	t.w.logMu.Lock()
-	t.w.finished = append(t.w.finished, le)
-	t.w.logMu.Unlock()
 	return nil
+}
+
+// doneMux / doneConn: the transport handed to Server.Serve; a stream's first Close
+// on the server side is the end of its handler (handleHostStream defers it, after
+// the handler has returned and released the contract lock).
+type doneMux struct {
+	m *mux.Mux
+	w *world
+}
+
+func (d *doneMux) Close() error { return d.m.Close() }
+func (d *doneMux) AcceptStream() (net.Conn, error) {
+	s, err := d.m.AcceptStream()
+	if err != nil {
+		return nil, err
+	}
+	return &doneConn{Conn: s, w: d.w}, nil
+}
+
+type doneConn struct {
+	net.Conn
+	w    *world
+	once sync.Once
+}
+
+func (c *doneConn) Close() error {
+	c.once.Do(func() {
+		c.w.logMu.Lock()
+		c.w.done++
+		c.w.logMu.Unlock()
+	})
+	return c.Conn.Close()
 }
 
 // ---- world -------------------------------------------------------------------
@@ -219,12 +252,15 @@ type world struct {
 	l       net.Listener
 
 	logMu    sync.Mutex
-	finished []logEntry
+	done     int    // streams whose handler has ended since the last quiesce
+	lastLog  string // diagnosis only
 	started  int
 
 	// mid, when set, is run once by the renter in the middle of a multi-round RPC:
 	// after it has read the host's intermediate response and before it answers
 	mid func()
+	// cut, when set, is where the renter of the current step drops the stream
+	cut string
 
 	stored []types.Hash256 // sector roots the store holds
 	dummy  [proto4.SectorSize]byte
@@ -255,7 +291,8 @@ func newWorld(seedKey func() types.PrivateKey) *world {
 	must(err)
 
 	w.ec = testutil.NewEphemeralContractor(w.cm)
-	w.rec = &recContractor{EphemeralContractor: w.ec}
+	w.rec = &recContractor{EphemeralContractor: w.ec, lockTip: map[types.FileContractID]uint64{}}
+	w.rec.tipOf = func() uint64 { return w.cm.Tip().Height }
 	w.ss = &recSectors{EphemeralSectorStore: testutil.NewEphemeralSectorStore()}
 	w.sr = testutil.NewEphemeralSettingsReporter()
 	w.set = proto4.HostSettings{
@@ -287,7 +324,22 @@ func newWorld(seedKey func() types.PrivateKey) *world {
 		rhp4.WithPriceTableValidity(priceValiditySeconds*time.Second), rhp4.WithRPCTimeout(20*time.Second))
 	w.l, err = net.Listen("tcp", "127.0.0.1:0")
 	must(err)
-	go siamux.Serve(w.l, w.srv, log)
+	go func() {
+		for {
+			conn, err := w.l.Accept()
+			if err != nil {
+				return
+			}
+			go func() {
+				defer conn.Close()
+				m, err := mux.Accept(conn, ed25519.PrivateKey(w.srv.HostKey()))
+				if err != nil {
+					return
+				}
+				w.srv.Serve(&doneMux{m: m, w: w}, log)
+			}()
+		}
+	}()
 	w.tr, err = siamux.Dial(context.Background(), w.l.Addr().String(), w.hostKey.PublicKey())
 	must(err)
 	return w
@@ -352,14 +404,14 @@ func (w *world) openStream() net.Conn {
 	return s
 }
 
-// quiesce waits until every stream opened so far has been handled to the end
-// (handleHostStream logged its outcome, after the handler released the contract
-// lock) and returns the log entries written since the last call.
-func (w *world) quiesce() []logEntry {
+// quiesce waits until every stream opened so far has been handled to the end (the
+// server closed its end, after the handler released the contract lock) and returns
+// the last error the server logged meanwhile (diagnosis only).
+func (w *world) quiesce() string {
 	deadline := time.Now().Add(12 * time.Second)
 	for {
 		w.logMu.Lock()
-		n := len(w.finished)
+		n := w.done
 		w.logMu.Unlock()
 		w.rec.mu.Lock()
 		held := w.rec.held
@@ -373,8 +425,9 @@ func (w *world) quiesce() []logEntry {
 		time.Sleep(50 * time.Microsecond)
 	}
 	w.logMu.Lock()
-	out := w.finished
-	w.finished = nil
+	out := w.lastLog
+	w.lastLog = ""
+	w.done = 0
 	w.logMu.Unlock()
 	w.started = 0
 	return out
@@ -387,18 +440,19 @@ func (w *world) runMid() {
 	}
 }
 
-// takeFinished waits for the next handler to finish (while another one may still
-// be running and holding a contract lock) and returns its log entry.
-func (w *world) takeFinished() []logEntry {
+// takeFinished waits for the next handler to end (while another one may still be
+// running and holding a contract lock).
+func (w *world) takeFinished() string {
 	deadline := time.Now().Add(12 * time.Second)
 	for {
 		w.logMu.Lock()
-		if len(w.finished) > 0 {
-			le := w.finished[0]
-			w.finished = w.finished[1:]
+		if w.done > 0 {
+			w.done--
+			out := w.lastLog
+			w.lastLog = ""
 			w.logMu.Unlock()
 			w.started--
-			return []logEntry{le}
+			return out
 		}
 		w.logMu.Unlock()
 		if time.Now().After(deadline) {
@@ -415,55 +469,3 @@ func (w *world) storeSector(root types.Hash256) {
 	w.stored = append(w.stored, root)
 }
 
-// classify maps what the renter saw and what the host logged to a verdict class
-// of the model (coq/RHP/Host.v, [verdict]).
-func classify(renterErr error, le []logEntry) string {
-	var msg, serr string
-	if len(le) > 0 {
-		msg, serr = le[len(le)-1].Msg, le[len(le)-1].Err
-	}
-	if msg == "panic in RPC handler" {
-		return "VPanic"
-	}
-	if msg == "RPC success" && renterErr == nil {
-		return "VOk"
-	}
-	code := uint8(0)
-	desc := ""
-	if renterErr != nil {
-		code = proto4.ErrorCode(renterErr)
-		desc = renterErr.Error()
-	}
-	t := serr + " | " + desc
-	has := func(s string) bool { return strings.Contains(t, s) }
-	switch {
-	case has("failed to read request"), has("failed to read renter signature"), has("failed to read renter signatures"), code == proto4.ErrorCodeDecoding:
-		return "VDecode"
-	case has("not accepting contracts"):
-		return "VNotAccepting"
-	case has("challenge signature must be set"), has("renter signature must be set"):
-		return "VInvalid"
-	case has("challenge"):
-		return "VChallenge"
-	case has("prices expired"), has("prices are invalid"), has("price table invalid"):
-		return "VPrices"
-	case has("failed to lock contract"):
-		return "VLock"
-	case has("insufficient renter funds"), has("insufficient host collateral"), code == proto4.ErrorCodePayment:
-		return "VPayment"
-	case has("renter funding"), has("expected renter to fund"):
-		return "VFunds"
-	case has("failed to revise contract"), has("failed to credit"), has("failed to add contract"):
-		return "VContractor"
-	case has("host funding error"), has("failed to fund"), has("failed to broadcast"), has("failed to update"), has("failed to add"), has("failed to get contract element"), has("failed to get transaction set"), has("satisfied policies"):
-		return "VChain"
-	case has("invalid signature"):
-		return "VSig"
-	case code == proto4.ErrorCodeBadRequest:
-		return "VInvalid"
-	}
-	if msg == "RPC success" {
-		return "VOk"
-	}
-	return "V?(" + t + ")"
-}
